@@ -262,7 +262,20 @@ pub fn run(script: &str, dir: &str) {
                 }
             }
             i += 1;
-            let img = format_image(size, cb, ro);
+            let mut img = format_image(size, cb, ro);
+            // optional stale tail: the host file is longer than the image needs and holds old bytes
+            let tail: usize = if t.len() > 5 { t[5].parse().unwrap() } else { 0 };
+            let len0 = img.len();
+            img.resize(len0 + tail, 0xA5);
+            // the host-file model without hole punching (zero-write fallback) must give the same guest content
+            {
+                let simnp = SimFile::new("simnp", img.clone());
+                simnp.0.borrow_mut().punch_supported = false;
+                let r = futures::executor::block_on(run_hist(Path::new("simnp"), simnp.clone(), size, &ops));
+                for (k, l) in r.iter().enumerate() {
+                    println!("{} simnp {} {}", id, k, l);
+                }
+            }
             let sim = SimFile::new("sim", img.clone());
             let r = futures::executor::block_on(run_hist(Path::new("sim"), sim.clone(), size, &ops));
             for (k, l) in r.iter().enumerate() {
